@@ -349,6 +349,13 @@ impl Lmdb {
         when: Time,
     ) -> Result<(), Error> {
         let key = Self::key_naddr_index(addr);
+        // The deletion time of an address never moves backwards: a deletion
+        // request older than one already recorded must not shorten its reach
+        if let Some(existing) = self.deleted_naddrs.get(txn, &key)? {
+            if existing >= when.as_u64() {
+                return Ok(());
+            }
+        }
         self.deleted_naddrs.put(txn, &key, &when.as_u64())?;
         Ok(())
     }
